@@ -11,6 +11,14 @@ add("C01", "Hypothesis generators + reference-model oracle (independent profiler
     "Generated-input search: thousands of random graphs x configurations per run; every printed instance count, line figure and comment fact is recomputed from the abstract triples by an independent reference profiler. Exploration, not proof: the space is unbounded, so sampling with construction-biased generators is the right level.", "DESIGN.md 2/C01")
 add("C06", "bounded-exhaustive enumeration + Hypothesis; oracle = abstract triples (rdflib cross-checks the generator)",
     "Every literal content up to 3 (quick) / 5 (thorough) tokens of a 22-token adversarial alphabet x every suffix x every tail is enumerated completely and read by the real N-Triples reader; Hypothesis covers longer contents and multi-line documents. Exhaustive within the bound, sampled beyond.", "DESIGN.md 2/C06")
+add("C02", "Hypothesis generators + reference-model oracle (expected key set with float n/N >= t semantics, both directions)",
+    "Generated graphs with thresholds placed on the k/n boundaries of the class sizes present; the key set and shape set read from the ShExC text must equal the set computed by the reference profiler. Exploration over an unbounded input space.", "DESIGN.md 2/C02")
+add("C09", "Hypothesis metamorphic testing (permutation / blank-node renaming) with a reference-model tie detector",
+    "Each generated graph is run twice (original, permuted + relabelled); canonical documents must agree; full equality is demanded wherever the reference profiler finds no frequency tie, and the detector itself is validated (a difference without a tie is a violation).", "DESIGN.md 2/C09")
+add("C12", "Hypothesis metamorphic testing over threshold grids + reference-model end points",
+    "All grid thresholds (every k/n boundary present) are run with fresh Shapers and all ordered pairs compared for key/shape monotonicity and equal figures of surviving alternatives; t=0 and t=1 are compared with the reference profiler.", "DESIGN.md 2/C12")
+add("C13", "Hypothesis metamorphic testing, one option flipped at a time, per-option relation on canonical documents",
+    "Two fresh Shapers differing in exactly one argument; the relation the property documents for that option is checked on the parsed outputs (structure identity, '?'->'*', {k>1}->'+', relaxation only below 100 %, disjunction over the same alternatives, ratio rounding vs the exact fraction).", "DESIGN.md 2/C13")
 
 ALL = ["C%02d" % i for i in range(1, 21)]
 def main():
